@@ -58,6 +58,11 @@ def check_container(ctx, g, w, c, fails, flags):
         for kind, x, uri in spellings if g.chance(0.4) else [(kind, x, uri)]:
             if kind == "uri" and ":" not in x:
                 continue
+            if kind == "print":
+                # what the print form denotes is a property of the manager's state *now*: an earlier lookup with a QualifiedName
+                # object may have registered its namespace in this container (strings are resolved without side effects)
+                res = cont.valid_qualified_name(x)
+                uri = res.uri if res is not None else None
             got = w.get_record(c, x)
             exp = expected_indices(w.conts[c], uri) if uri is not None else []
             got_idx = w.outs[-1]["recs"]
